@@ -40,7 +40,7 @@ def cases(tier, seed):
             for req, k in points:
                 for transport, kinds in (("remote", REMOTE_KINDS), ("async", ["raise"]), ("local", ["raise"])):
                     for kind in kinds:
-                        if req == "setup_done" and (transport != "remote" or kind == "remote_exception"):
+                        if req == "setup_done" and kind == "remote_exception":
                             continue
                         for lazy in ((True, False) if tier == "thorough" else (True,)):
                             pols = [{"kind": "fifo"}] + ([] if transport == "local" else
